@@ -466,7 +466,8 @@ class Log():
         # If the log configuration contains variables that we added without
         # type (i.e we want the stored as type for fetching as well) then
         # resolve this now and add them to the block again.
-        for name in logconf.default_fetch_as:
+        while len(logconf.default_fetch_as) > 0:
+            name = logconf.default_fetch_as[0]
             var = self.toc.get_element_by_complete_name(name)
             if not var:
                 logger.warning(
@@ -476,6 +477,9 @@ class Log():
             # Now that we know what type this variable has, add it to the log
             # config again with the correct type
             logconf.add_variable(name, var.ctype)
+            # The variable now has a type, adding the configuration again (for
+            # instance after a reconnect) must not add it a second time
+            logconf.default_fetch_as.pop(0)
 
         # Now check that all the added variables are in the TOC and that
         # the total size constraint of a data packet with logging data is
